@@ -1,3 +1,4 @@
+import IceTie.AgentDefaults
 import IceTie.Prio
 import IceSpec.C17
 import IceModel.Crc32
@@ -193,5 +194,20 @@ example : candViolation { ty := .srflx, isTCP := true, tt := .passive, relayProt
     (modelOut { ty := .srflx, isTCP := true, tt := .passive, relayProto := "udp", offset := 101, component := 1 }) = none := by
   decide
 example : pairPriorityGD 2130706431 1694498815 < pairPriorityGD 2130706431 1694498816 := by decide
+
+/-! ## Tie to the code (T, round 3): the default TCP priority offset of agent_config.go -/
+
+/-- `initWithDefaults`: `tcpPriorityOffset` is the configured value, else `defaultTCPPriorityOffset` = 27 — the model's constant -/
+theorem C17_code_tcp_offset_default :
+    (∀ n1 v1 n2 v2 noTypes, IceGen.agentConfig_initWithDefaults_misc n1 v1 n2 v2 noTypes
+      = [IceTie.AgentDefaults.setI "agent.stunGatherTimeout" n1 5000000000 v1, IceTie.AgentDefaults.setN "agent.tcpPriorityOffset" n2 27 v2,
+         IceModel.Eff.set "agent.candidateTypes" (IceModel.Val.s (if noTypes then "defaultCandidateTypes()" else "config.CandidateTypes"))]) ∧
+    (∀ v w noTypes, (IceGen.agentConfig_initWithDefaults_misc true v true w noTypes)[1]?
+      = some (IceModel.Eff.set "agent.tcpPriorityOffset" (IceModel.Val.n defaultTCPPriorityOffset))) :=
+  ⟨IceTie.AgentDefaults.initWithDefaults_misc_tie, fun v w noTypes => by
+    rw [IceTie.AgentDefaults.initWithDefaults_misc_tie]; rfl⟩
+
+example : (IceGen.agentConfig_initWithDefaults_misc true 0 false 5 true)[1]?
+    = some (IceModel.Eff.set "agent.tcpPriorityOffset" (IceModel.Val.n 5)) := by decide
 
 end IceProps.C17
